@@ -167,3 +167,40 @@ def check_new_statics(facts, rep, rid, prop):
                     "computed for, which none of the property's rules accounts for" % (b.path, ty[:80], prop))
     if n == 0:
         rep.ok(rid, "no-new-process-wide-state", "", "no new static cell / lock in the anchored files", nontrivial=False)
+
+
+_BEHAVIOUR_TRAITS = ("bytes::Buf", "bytes::buf::Buf", "bytes::BufMut", "tokio::io::AsyncRead", "tokio::io::AsyncWrite", "tokio::io::AsyncBufRead",
+                     "core::future::Future", "core::ops::Drop", "std::io::Read", "std::io::Write", "futures_core::Stream", "futures_sink::Sink",
+                     "core::iter::Iterator")
+
+
+def check_new_trait_methods(facts, rep, rid, prop):
+    """A method of a behaviour-bearing external trait (Buf, AsyncRead/Write/BufRead, Future, Drop, Read, Stream, Sink) implemented for a type of
+    the anchored files that the reference tree does not implement: an override of a provided method (e.g. Buf::copy_to_bytes) or a new
+    destructor changes what the public operations / every scope end do, and no rule of the property was written for it (the facts are
+    taken before drop elaboration, so a new Drop impl is invisible to every path rule)."""
+    import normalize
+    inv = normalize.inventory()
+    files = _anchor_files(prop)
+    n = 0
+    for crate in facts.crates.values():
+        known = inv.get(crate.name)
+        if known is None:
+            continue
+        for b in crate.bodies:
+            if b.kind != "AssocFn" or not b.j.get("impl_trait") or b.path in known:
+                continue
+            tr_ = (b.j.get("impl_trait") or "").replace("std::", "core::").replace("core::io", "std::io")
+            tdef = b.j.get("impl_trait_def") or tr_
+            if not any(t.split("::")[-1] == tdef.split("::")[-1].split("<")[0] and t.split("::")[0] in tdef.replace("std::", "core::").replace("core::io", "std::io")
+                       for t in _BEHAVIOUR_TRAITS) and not any(tr_.startswith(t) or tdef.startswith(t) for t in _BEHAVIOUR_TRAITS):
+                continue
+            if not any(b.file.endswith(f) for f in files):
+                continue
+            n += 1
+            what = "a destructor" if b.name == "drop" else "`%s`" % b.name
+            rep.bad(rid, "new-trait-method/%s" % b.path, "%s (%s)" % (loc_str(b.loc), b.path),
+                    "%s of `%s` is implemented for `%s` here but not on the reference tree: it changes what a public operation (or every scope end) "
+                    "of this type does, and none of %s's rules was written for it" % (what, tdef, (b.j.get("impl_self") or {}).get("adt") or "?", prop))
+    if n == 0:
+        rep.ok(rid, "no-new-trait-methods", "", "no new Buf / AsyncRead / AsyncWrite / Future / Drop / ... method on the anchored types", nontrivial=False)
